@@ -43,6 +43,15 @@ NAMEMAPS = [
 ]
 
 
+# how a kind is stored in the HDF5 file (used for the kind-change bindings and their vacuity guard)
+STORAGE = {"attr": ("int", "long", "uns", "dbl", "flt", "bool", "str"),
+           "dset": ("vint", "vlong", "vuns", "vdbl", "vstr", "matd", "vecd", "rowd", "matf", "matl", "v3", "m3", "blk"),
+           "group": ("l3", "esys"),
+           "table": ("tab", "tabc")}
+CLASS_OF = {k: c for c, ks in STORAGE.items() for k in ks}
+BIG_BYTES = 65536     # HDF5's limit for compact datasets
+
+
 def enc(name):
     return urllib.parse.quote(name, safe="")
 
@@ -58,11 +67,13 @@ class Catalogue:
             raise vlib.InfraError("drv_checkpoint catalog failed: " + err[-2000:])
         self.kinds = {}
         self.shape = {}
+        self.nbytes = {}
         for ln in out.splitlines():
             if ln.startswith("val "):
                 p = ln.split()
                 self.kinds.setdefault(p[1], []).append(int(p[2]))
                 self.shape[(p[1], int(p[2]))] = p[3]
+                self.nbytes[(p[1], int(p[2]))] = int(p[4])
         if len(self.kinds) < 10:
             raise vlib.InfraError("catalogue too small: %s" % sorted(self.kinds))
 
@@ -111,7 +122,11 @@ class Catalogue:
 class Binding:
     """abstract value id ('a2') -> (kind, index)"""
 
-    def __init__(self, cat, n, A, B, C):
+    def __init__(self, cat, n, A, B, C, roles=None):
+        self.cat = cat
+        if roles is not None:           # explicit: {"a": (kind, [indices]), ...}
+            self.role = roles
+            return
         a = A[n % len(A)]
         jb = (n * 7 + 3) % len(B)
         while B[jb][0] == a[0]:
@@ -226,7 +241,7 @@ def judge(ctx, cat, plan, out, crash):
         k, ix = bind.val(st["v"])
         before = steps[si - 1]["obs"][i][j] if si > 0 else "none"
         sc = cat.shapeclass(k, ix)
-        if before in ("none", "unknown"):
+        if before == "none":
             return k, "new:%s" % sc
         ko, io = bind.val(before)
         if ko != k:
@@ -291,9 +306,6 @@ def judge(ctx, cat, plan, out, crash):
                                   "write through a CheckpointFile opened with READ was not refused (other open handles on "
                                   "the file: %s): '%s'" % (oth or "none", r0), rep)
                     return "viol"
-            elif st["loose"]:
-                if (st["res"] == "ok") != got_ok:
-                    return "branch"     # the sibling history with the other admitted outcome applies
             elif not got_ok:
                 ctx.violation("write:%s:%s:error" % (k, cl), "Write(%s,%s,%s=%s[%d] shape %s) failed: %s"
                               % (plan.pm[st["p"]], plan.nm[st["n"]], st["v"], k, bind.val(st["v"])[1],
@@ -347,7 +359,7 @@ def judge(ctx, cat, plan, out, crash):
 
 
 def kind_is_sized(k):
-    return k in ("vint", "vlong", "vuns", "vdbl", "vstr", "l3", "tab", "vecd", "str")
+    return k in ("vint", "vlong", "vuns", "vdbl", "vstr", "l3", "tab", "tabc", "vecd", "str")
 
 
 def size_relation(k, so, sn):
@@ -687,15 +699,84 @@ def run(ctx):
         replay(ctx, cat, exe, res.records, mod, lambda n: Binding(cat, n + off, A, B, C),
                every_step_of=(lambda n: n % 4 == 0) if mod == "MCThoroughA" else None)
 
-    # ---- 3. rewriting a name with another kind (lenient reading, see Checkpoint.tla) -------------
-    res = tlc("MCCross", "Checkpoint histories with kind changes")
-    reps = 3 if quick else 10
-    big = Repeat(res.records, reps)
-    st = replay(ctx, cat, exe, big, "cross", lambda n: Binding(cat, (n // max(1, len(res.records))) * 37 + n + off, A, B, C))
-    ctx.extra["cross_kind_branches_not_taken"] = st["branch"]
+    # ---- 3. rewriting a name with another kind: must replace (strict, see Checkpoint.tla) -------
+    # roles a,b,c are bound to kinds of chosen storage classes so that every ordered pair of
+    # classes (attribute, dataset, group, table - also within one class) occurs; plus bindings
+    # "compact table, then values of >= 64 KiB" (openTable's compact option must not leak)
+    mod = "MCCrossQuick" if quick else "MCCross"
+    res = tlc(mod, "Checkpoint histories with kind changes")
+    triples = [("attr", "dset", "group"), ("attr", "dset", "table"), ("attr", "group", "table"),
+               ("dset", "group", "table"), ("attr", "attr", "dset"), ("dset", "dset", "group"),
+               ("group", "group", "attr"), ("table", "table", "dset")]
+    big = {k: [i for i in ix if cat.nbytes[(k, i)] >= BIG_BYTES] for k, ix in cat.kinds.items()}
+    bigkinds = sorted(k for k in big if big[k])
+    if len(bigkinds) < 3 or "tabc" not in cat.kinds:
+        raise vlib.InfraError("catalogue lacks large values / compact tables: %s" % bigkinds)
+    rounds = 1 if quick else 3
+    rolesets = []
+    for r in range(rounds):
+        for t in triples:
+            used, roles = set(), {}
+            for role, cl in zip("abc", t):
+                ks = [k for k in STORAGE[cl] if k in cat.kinds and k not in used]
+                k = ks[(r * 5 + off + len(used) * 3) % len(ks)]
+                used.add(k)
+                ix = cat.kinds[k]
+                rot = (r * 3 + off) % len(ix)
+                roles[role] = (k, ix[rot:] + ix[:rot])
+            rolesets.append(roles)
+        # compact table first, large values afterwards (in the same driver process)
+        for j in range(len(bigkinds)):
+            kb, kc = bigkinds[(j + r) % len(bigkinds)], bigkinds[(j + r + 1) % len(bigkinds)]
+            tix = cat.kinds["tabc"]
+            rolesets.append({"a": ("tabc", tix[(j + r) % len(tix):] + tix[:(j + r) % len(tix)]),
+                             "b": (kb, big[kb] + [i for i in cat.kinds[kb] if i not in big[kb]]),
+                             "c": (kc, big[kc] + [i for i in cat.kinds[kc] if i not in big[kc]])})
+        # a table and a matrix/vector with the SAME number of rows under one name (neither may be mistaken
+        # for the other when the name is rewritten)
+        def lead(k, i):
+            return int(cat.shape[(k, i)].split("x")[0])
+        for tk in ("tab", "tabc"):
+            ds = [k for k in ("matd", "vdbl", "vecd", "vlong", "matl", "vstr", "blk") if k in cat.kinds]
+            kb, kc = ds[(r * 2) % len(ds)], ds[(r * 2 + 1) % len(ds)]
+            for ti in cat.kinds[tk]:
+                nb = [i for i in cat.kinds[kb] if lead(kb, i) == lead(tk, ti) > 0]
+                nc = [i for i in cat.kinds[kc] if lead(kc, i) == lead(tk, ti) > 0]
+                if nb and nc:
+                    rolesets.append({"a": (tk, [ti]), "b": (kb, nb), "c": (kc, nc)})
+                    break
+            else:
+                raise vlib.InfraError("no table/dataset values with equal row count (%s,%s,%s)" % (tk, kb, kc))
+    nrec = max(1, len(res.records))
+    seen_pairs = set()
+    for roles in rolesets:
+        for x in "abc":
+            for y in "abc":
+                if x != y:
+                    seen_pairs.add((CLASS_OF[roles[x][0]], CLASS_OF[roles[y][0]]))
+    ctx.extra["kind_change_bindings"] = len(rolesets)
+    replay(ctx, cat, exe, Repeat(res.records, len(rolesets)), "cross",
+           lambda n: Binding(cat, n, A, B, C, roles=rolesets[n // nrec]))
+    # vacuity: TLC's histories contain every order of a, b, c on one name (checked here on the records),
+    # so every ordered pair of the roles' storage classes was rewritten
+    orders = set()
+    for rec in res.records:
+        last = {}
+        for st in rec["h"]:
+            if st["a"] == "write" and st["res"] == "ok":
+                key = (st["p"], st["n"])
+                if st["kc"]:
+                    orders.add((last[key][0], st["v"][0]))
+                last[key] = st["v"]
+    missing_orders = {(x, y) for x in "abc" for y in "abc" if x != y} - orders
+    want_pairs = {(x, y) for x in STORAGE for y in STORAGE}
+    if missing_orders or want_pairs - seen_pairs:
+        raise vlib.InfraError("kind-change coverage is vacuous: role orders missing %s, storage class pairs missing %s"
+                              % (sorted(missing_orders), sorted(want_pairs - seen_pairs)))
+    ctx.extra["storage_class_pairs_rewritten"] = len(seen_pairs)
 
     # ---- 4. deeper random histories ------------------------------------------------------------
-    nsim = 40 if quick else 200
+    nsim = 25 if quick else 200
     res = tlc("MCSim", "Checkpoint simulation", simulate=nsim, depth=12, workers=4, seed=ctx.seed)
     # (half of them observed only at the end: intermediate fresh readers must not be what keeps the file right)
     if res.records:
